@@ -591,6 +591,28 @@ int main ()
       for (unsigned k=0;k<N;k++) cubature (4, wgt/N, M, [&]() { g_uniform.clear(); g_uniform.push_back ((k + 0.5) / N); draws++; return smp->get_Stokes(); }); }
     bool counts_ok = (!pa || pa->calls == draws) && (!pb || pb->calls == draws);
     report (O, M, smp->get_mean(), smp->get_covariance(), SA[0] + SB[0]); O.puti (counts_ok ? 1 : 0); };
+  // oracle: coherent sample of TWO instances at zero coherence whose modes carry modulation that is correlated from one instance
+  // to the next (kind hold: both instances of a sample share one factor; kind boxcar: running mean of width 2 over iid draws;
+  // the draws take the values 1-d and 1+d with probability 1/2 each; which: 0 = mode A, 1 = mode B, 2 = both, independently).
+  // Exact ensemble: enumeration of the draws x 5-node product cubature over the 8 deviates of the coupling mode, against the
+  // predicted mean and covariance of the sample mean (which must contain the instance-to-instance terms)
+  OP("o.c05.coherentlag") { Stokes<double> SA = A.stokes(); Stokes<double> SB = A.stokes(); std::string kind = A.next(); unsigned which = A.n(); double d = A.d();
+    epsic::coherent* c = new epsic::coherent (0.0); c->A->set_Stokes (SA); c->B->set_Stokes (SB); c->set_normal (&g_bm);
+    scripted_mod* sm[2] = { 0, 0 }; epsic::modulated_mode* top[2] = { 0, 0 };
+    for (unsigned m=0;m<2;m++) { if (which != 2 && which != m) continue; epsic::mode* base = m ? c->B : c->A; sm[m] = new scripted_mod (base, 1.0, d*d);
+      if (kind == "hold") top[m] = new epsic::square_modulated_mode (sm[m], 2, 2);
+      else { top[m] = new epsic::boxcar_modulated_mode (sm[m], 2); sm[m]->values.push_back (1.0); sm[m]->values.push_back (1.0); top[m]->modulation(); }
+      if (m) c->B = top[m]; else c->A = top[m]; }
+    epsic::sample* smp = c; smp->sample_size = 2; Moments M;
+    unsigned ndraw = (kind == "hold") ? 1 : 3; unsigned nm = (sm[0] ? 1 : 0) + (sm[1] ? 1 : 0); unsigned combos = 1u << (ndraw * nm);
+    for (unsigned combo=0; combo<combos; combo++) {
+      cubature (8, 1.0L / combos, M, [&]() { unsigned bit = 0;
+        for (unsigned m=0;m<2;m++) { if (!sm[m]) continue; std::vector<double> v; for (unsigned k=0;k<ndraw;k++) { v.push_back (((combo >> bit) & 1) ? 1 + d : 1 - d); bit++; }
+          sm[m]->values.clear();
+          if (kind == "hold") sm[m]->values.push_back (v[0]);
+          else { sm[m]->values.push_back (v[0]); top[m]->modulation(); sm[m]->values.push_back (v[1]); sm[m]->values.push_back (v[2]); } }
+        g_uniform.clear(); g_uniform.push_back (0.375); return smp->get_Stokes(); }); }
+    report (O, M, smp->get_mean(), smp->get_covariance(), (SA[0] + SB[0]) * (1 + d)); };
   // oracle: lagged cross-covariance between successive composite samples when mode A is boxcar-modulated (iid draws of unit
   // mean and variance `var` through the real filter of width w), fields deterministic (stubs), B unmodulated.  The sample is
   // affine in the draws, so its exact cross-covariance follows from the impulse responses.  Output: |exact - predicted| for
